@@ -433,7 +433,7 @@ pub fn run(args: &hcore::Args, out: &mut hcore::Out) {
         emit(out, idx, class, &cfg, &ops);
         idx += 1;
     }
-    let n = args.n(600, 20000);
+    let n = args.n(600, 12000);
     for _ in 0..n {
         let mut rng = hcore::Rng::for_case(args.seed, idx);
         let (cfg, ops) = random_case(&mut rng);
